@@ -48,10 +48,10 @@ class ParserError(Exception):
 
     def get_uncrecognized_word(self, string: str, index: int):
         up = index
-        while string[up] != " ":
+        while up < len(string) and string[up] != " ":
             up += 1
         down = index
-        while string[down] != " ":
+        while 0 <= down < len(string) and string[down] != " ":
             down -= 1
         return string[down+1:up]
 
